@@ -52,6 +52,7 @@ def run(ctx):
     ctx.rule("R02.b", "update's own unknown-key check precedes the first setattr of that key", floor=1)
     ctx.rule("R02.c", "validators notify nobody: no function reachable from any Parameter type's _validate dispatches watchers (no _trigger_event/_call_watcher/flush, "
                       "no ListProxy notification scope, no mutator call on the objects proxy)", floor=30)
+    ctx.rule("R02.m", "setter model: Parameter.__set__ interpreted abstractly on every combination (576) of route x constant/readonly x validation outcome x identity x reference mode x watchers x batching agrees with the specification of this property (see checks/setter_model.py)", floor=1)
     ctx.not_decided += ["that callees are effect-free before their own raises (Composite._post_setter assigns constituents one by one)",
                         "equality of the complete observable state before/after (needs execution)"]
     ctx.assumptions.append("frozen exclusion: the scheduling done inside _resolve_ref for coroutine references (there is no current value to reject)")
@@ -154,6 +155,10 @@ def run(ctx):
                 input="constant Selector(check_on_set=False) with an `objects` watcher; p.x = <new value> raises TypeError but the watcher has already run")
         else:
             ctx.ok("R02.c", ctx.hier.resolve(q, "_validate"), None, "%s: %d validator function(s), none notifies" % (q.rsplit(".", 1)[-1], len(clos)))
+
+    # model-level rule, run last (see DESIGN §10)
+    from checks import setter_model
+    setter_model.report(ctx, "C02", "R02.m")
 
 
 def _enclosing_fors(fnode, target):
